@@ -700,6 +700,7 @@ pub fn run_sequence(spec: &Spec, reader: bool, seq: &[Op], parity_odd: bool, sta
 /// `tracked = false` is the warm-up mode: same code path, allocator not armed, so that
 /// one-time lazy allocations of the runtime happen outside any tracked execution.
 pub fn run_sequence_inner(spec: &Spec, reader: bool, seq: &[Op], parity_odd: bool, stats: &mut Stats, tracked: bool) -> Result<Vec<Op>, Fail> {
+    oracle::sys::set_crash_note(&format!("cursor tree={:?} reader={} ops={:?}", spec, reader, seq));
     if tracked {
         oracle::begin_execution(parity_odd);
     }
